@@ -42,17 +42,22 @@ theorem consumeReverseSolidusAtomEscape_wb (hN : K.2 < 2 ^ 62) (hsrc : ∀ x ∈
     (s : St) (h : BAt src K r s) :
     Wp (consumeReverseSolidusAtomEscape n s) (fun b s1 =>
       if b = true then ∃ r1 a, BAt src K r1 s1 ∧ RxSpecB.Derives K.1 qokSat K.2 .ExtendedAtom r r1 a ∧ Track s s1 a
-      else BAt src K r s1 ∧ KeepN s s1) := by
+      else BAt src K r s1 ∧ KeepN s s1 ∧ ∀ m, r = c '\\' :: m → ¬∃ r1 v, RxSpecB.CharacterEscape K.1 m r1 v) := by
   unfold consumeReverseSolidusAtomEscape
   rx6_auto
-  · rename_i m hat0 s1 hat1 hk hat2
+  · rename_i m hat0 s1 hat1 hk hno hat2
     rw [if_neg (by decide)]
-    exact ⟨hat2, by rx6_keep⟩
+    refine ⟨hat2, by rx6_keep, ?_⟩
+    intro m' e
+    have e' : m = m' := (List.cons.inj e).2
+    subst e'
+    exact hno
   · rename_i m hat0 s1 r1 a hat1 hae htr
     rw [if_pos rfl]
     exact ⟨r1, a, hat1, RxSpecB.Derives.atomEscape m r1 a hae, Track.pre (s1 := s.setPos src (s.reader.index + 1)) ⟨rfl, rfl⟩ htr⟩
-  · rw [if_neg (by decide)]
-    exact ⟨h, KeepN.refl s⟩
+  · rename_i hne
+    rw [if_neg (by decide)]
+    exact ⟨h, KeepN.refl s, fun m e => absurd (by rw [e]; rfl) hne⟩
 
 structure AllSpecB (src : List Nat) (K : Bool × Nat) (n : Nat) : Prop where
   disjunction : ∀ (r : List Nat) (s : St), BAt src K r s → Wp (consumeDisjunction n s) (fun _ s1 =>
@@ -68,7 +73,7 @@ structure AllSpecB (src : List Nat) (K : Bool × Nat) (n : Nat) : Prop where
     if b = true then ∃ r1 a, BAt src K r1 s1 ∧ Track s s1 a ∧
       ((s1.lastAssertionIsQuantifiable = true ∧ RxSpecB.Derives K.1 qokSat K.2 .QuantifiableAssertion r r1 a) ∨
        (s1.lastAssertionIsQuantifiable = false ∧ RxSpecB.Derives K.1 qokSat K.2 .Assertion r r1 a))
-    else BAt src K r s1 ∧ KeepN s s1)
+    else BAt src K r s1 ∧ KeepN s s1 ∧ ¬RxSpecB.StartsWordBoundary r)
   extendedAtom : ∀ (r : List Nat) (s : St), BAt src K r s → Wp (consumeExtendedAtom n s) (fun b s1 =>
     if b = true then ∃ r1 a, BAt src K r1 s1 ∧ RxSpecB.Derives K.1 qokSat K.2 .ExtendedAtom r r1 a ∧ Track s s1 a
     else BAt src K r s1 ∧ KeepN s s1)
@@ -102,7 +107,8 @@ theorem allSpecB (hN : K.2 < 2 ^ 62) (hsrc : ∀ x ∈ src, x ≤ 0xFFFF) : ∀ 
     have h9 := ih.capturingGroup
     have hrs : ∀ (n : Nat) (r : List Nat) (s : St), BAt src K r s → Wp (consumeReverseSolidusAtomEscape n s) (fun b s1 =>
         if b = true then ∃ r1 a, BAt src K r1 s1 ∧ RxSpecB.Derives K.1 qokSat K.2 .ExtendedAtom r r1 a ∧ Track s s1 a
-        else BAt src K r s1 ∧ KeepN s s1) := fun n r s h => consumeReverseSolidusAtomEscape_wb hN hsrc n r s h
+        else BAt src K r s1 ∧ KeepN s s1 ∧ ∀ m, r = c '\\' :: m → ¬∃ r1 v, RxSpecB.CharacterEscape K.1 m r1 v) :=
+      fun n r s h => consumeReverseSolidusAtomEscape_wb hN hsrc n r s h
     constructor
     · intro r s h; unfold consumeDisjunction; rx6_auto
       rename_i _ s1 m a1 hat1 halt htr1 _ s2 r1 a2 hat2 hdt htr2 s3 hk hat3 _
@@ -119,16 +125,16 @@ theorem allSpecB (hN : K.2 < 2 ^ 62) (hsrc : ∀ x ∈ src, x ≤ 0xFFFF) : ∀ 
         exact ⟨r1, a1 ++ a2, hat2, AltTailB.cons _ m r1 a1 a2 hterm htail, htr1.trans htr2⟩
       · exact ⟨[], Attr.nil, h, AltTailB.nil _, Track.ofKeepN (KeepN.refl s)⟩
     · intro r s h; unfold consumeTerm; rx6_auto
-      · rename_i s1 hat1 hk1 s2 hat2 hk2
+      · rename_i s1 hat1 hk1 hws s2 hat2 hk2
         rw [if_neg (by decide)]
         exact ⟨hat2, hk1.trans hk2⟩
-      · rename_i s1 hat1 hk1 s2 m a hat2 hatom htr b s3 hb hk3 r1 hat3 hq
+      · rename_i s1 hat1 hk1 hws s2 m a hat2 hatom htr b s3 hb hk3 r1 hat3 hq
         subst hb
         rw [if_pos rfl]
         refine ⟨r1, a, hat3, ?_, (Track.pre hk1 htr).post hk3⟩
         rcases hq with rfl | hq
-        · exact RxSpecB.Derives.termAtom _ _ _ hatom
-        · exact RxSpecB.Derives.termAtomQuantified _ m _ _ hatom hq
+        · exact RxSpecB.Derives.termAtom _ _ _ hatom hws
+        · exact RxSpecB.Derives.termAtomQuantified _ m _ _ hatom hq hws
       · -- a quantifiable assertion, with or without a quantifier
         rename_i s1 m a hat1 htr hd hn s2 hk2 r1 hat2 hq _
         rw [if_pos rfl]
@@ -152,7 +158,8 @@ theorem allSpecB (hN : K.2 < 2 ^ 62) (hsrc : ∀ x ∈ src, x ≤ 0xFFFF) : ∀ 
         · exact RxSpecB.Derives.quantifiable _ _ _ hd
         · exact hd
     · intro r s h; unfold consumeAssertion; rx6_auto
-      all_goals (try (rw [if_neg (by decide)]; exact ⟨by rx6_at, by rx6_keep⟩))
+      all_goals (try (rw [if_neg (by decide)]; exact ⟨by rx6_at, by rx6_keep, fun ⟨r', e⟩ => e.elim
+        (fun e => ‹¬∃ r', _ = ch '\\' :: ch 'b' :: r'› ⟨r', e⟩) (fun e => ‹¬∃ r', _ = ch '\\' :: ch 'B' :: r'› ⟨r', e⟩)⟩))
       all_goals (try (rw [if_pos rfl]; exact ⟨_, Attr.nil, by rx6_at, Track.ofKeepN ⟨rfl, rfl⟩, .inr ⟨rfl, RxSpecB.Derives.caret _⟩⟩))
       all_goals (try (rw [if_pos rfl]; exact ⟨_, Attr.nil, by rx6_at, Track.ofKeepN ⟨rfl, rfl⟩, .inr ⟨rfl, RxSpecB.Derives.dollar _⟩⟩))
       all_goals (try (rw [if_pos rfl]; exact ⟨_, Attr.nil, by rx6_at, Track.ofKeepN ⟨rfl, rfl⟩, .inr ⟨rfl, RxSpecB.Derives.notWordBoundary _⟩⟩))
@@ -191,9 +198,16 @@ theorem allSpecB (hN : K.2 < 2 ^ 62) (hsrc : ∀ x ∈ src, x ≤ 0xFFFF) : ∀ 
         exact ⟨_, Attr.nil, ‹BAt src K _ _›, RxSpecB.Derives.characterClass _ _ ‹RxSpecB.CharacterClass _ r _›,
           Track.ofKeepN (by rx6_keep)⟩
       · rename_i w hr hat
+        have hno := ‹∀ m, r = c '\\' :: m → ¬∃ r1 v, RxSpecB.CharacterEscape K.1 m r1 v›
         rw [if_pos rfl]
         subst hr
-        exact ⟨_, Attr.nil, hat, RxSpecB.Derives.backslashC w, Track.ofKeepN (by rx6_keep)⟩
+        refine ⟨_, Attr.nil, hat, RxSpecB.Derives.backslashC w ?_, Track.ofKeepN (by rx6_keep)⟩
+        intro l hl hcl
+        cases w with
+        | nil => cases hl
+        | cons l' w' =>
+          cases hl
+          exact hno _ rfl ⟨w', l % 32, RxSpecB.CharacterEscape.controlLetter l w' hcl⟩
       · rw [if_pos rfl]
         exact ⟨_, _, ‹BAt src K _ _›, ‹RxSpecB.Derives _ _ _ _ r _ _›, ‹Track s _ _›⟩
     · intro r s h; unfold consumeUncapturingGroup; rx6_auto
